@@ -64,6 +64,18 @@ def _tables():
         "atan2": jnp.arctan2, "hypot": jnp.hypot, "copysign": jnp.copysign,
         "logaddexp": jnp.logaddexp,
     }
+    # integer (or boolean) operands under JAX's type promotion: the result is a float although no operand array is
+    PROMO = {
+        "clip_f": lambda x: jnp.clip(x, 0.5, 2.5), "max_f": lambda x: jnp.maximum(x, 0.5), "min_f": lambda x: jnp.minimum(x, 1.5),
+        "add_f": lambda x: x + 0.5, "mul_f": lambda x: x * 1.5, "rsub_f": lambda x: 0.25 - x, "truediv": lambda x: x / 4,
+        "pow_f": lambda x: jnp.power(jnp.abs(x), 0.5), "sqrt": lambda x: jnp.sqrt(jnp.abs(x)),
+        "exp": lambda x: jnp.exp(jnp.clip(x, -5, 5)), "tanh": lambda x: jnp.tanh(x), "sin": lambda x: jnp.sin(jnp.clip(x, -100, 100)),
+        "where_f": lambda x: jnp.where(x > 0, x, 0.5),
+        "mean": lambda x: jnp.mean(x, axis=-1) if x.ndim else jnp.mean(x), "mean_all": lambda x: jnp.mean(x),
+        "var": lambda x: jnp.var(jnp.clip(x, -100, 100), axis=-1) if x.ndim else x * 0.5,
+        "std_all": lambda x: jnp.std(jnp.clip(x, -100, 100)),
+        "cast_div": lambda x: x.astype(jnp.asarray(0.0).dtype) / 3,
+    }
     UN_I = {"neg": jnp.negative, "abs": jnp.abs, "sign": jnp.sign, "square": jnp.square, "invert": jnp.invert}
     BIN_I = {
         "add": jnp.add, "sub": jnp.subtract, "mul": jnp.multiply, "max": jnp.maximum, "min": jnp.minimum,
@@ -97,7 +109,7 @@ def _tables():
                     return (lambda mod, name: (lambda *a, **k: getattr(mod, name)(*a, **k)))(m, n)
         raise RuntimeError(f"progen table: cannot late-bind {v!r}")
 
-    tabs = dict(UN_F=UN_F, BIN_F=BIN_F, UN_I=UN_I, BIN_I=BIN_I, CMP=CMP, RED_F=RED_F, RED_I=RED_I, RED_B=RED_B)
+    tabs = dict(PROMO=PROMO, UN_F=UN_F, BIN_F=BIN_F, UN_I=UN_I, BIN_I=BIN_I, CMP=CMP, RED_F=RED_F, RED_I=RED_I, RED_B=RED_B)
     return {k: {n: late(f) for n, f in d.items()} for k, d in tabs.items()}
 
 
@@ -116,6 +128,13 @@ UN_F_NAMES = ["sin", "cos", "tanh", "exp_c", "log_a", "sqrt_a", "floor", "ceil",
               "lax_round_even", "sign", "abs", "neg", "square", "relu", "gelu", "sigmoid", "softplus", "log_sigmoid", "silu", "elu",
               "leaky_relu", "erf", "relu6", "log1p_a", "expm1_c", "recip_g", "rsqrt_g", "softmax", "log_softmax", "cumsum", "arctan",
               "sinh_c", "cosh_c", "hard_tanh", "celu", "selu", "mish", "isfinite_f"]
+PROMO_NAMES = ["clip_f", "max_f", "min_f", "add_f", "mul_f", "rsub_f", "truediv", "pow_f", "sqrt", "exp", "tanh", "sin", "where_f", "mean", "mean_all",
+               "var", "std_all", "cast_div"]
+# open findings (known_findings/C01.json, D19): these lower with the *integer* operand type (clip/maximum/minimum/power against a
+# float scalar return int32) or announce a float64 result to the consumers (jnp.where(int, x, 0.5): a following jnp.prod declares double). They stay in the table for the committed repro cases but are not drawn, so that the programs around
+# them keep being checked. (jnp.mean of an integer/bool tensor was repaired: corpus/C01/promo-mean-*.)
+PROMO_KNOWN_BROKEN = ("clip_f", "max_f", "min_f", "pow_f", "where_f")
+PROMO_REDUCING = {"mean": "last", "var": "last", "mean_all": "all", "std_all": "all"}
 BIN_F_NAMES = ["add", "sub", "mul", "div_g", "max", "min", "fmod_g", "rem_g", "floordiv_g", "pow_g", "atan2", "hypot", "copysign", "logaddexp", "div_c", "pow_c", "clip_hi"]
 UN_I_NAMES = ["neg", "abs", "sign", "square", "invert"]
 BIN_I_NAMES = ["add", "sub", "mul", "max", "min", "floordiv_nz", "rem_nz", "fmod_nz", "and", "or", "xor", "shl", "shr"]
@@ -172,6 +191,8 @@ def eval_stmt(s, env):
         return t["BIN_F"][kw["f"]](a[0], a[1])
     if op == "un_i":
         return t["UN_I"][kw["f"]](a[0])
+    if op == "promo":
+        return t["PROMO"][kw["f"]](a[0])
     if op == "bin_i":
         return t["BIN_I"][kw["f"]](a[0], a[1])
     if op == "cmp":
@@ -483,6 +504,8 @@ class PB:
         fams = []
         if "ew" in allow:
             fams += ["un", "bin", "bin", "cmp", "where", "clip"]
+            if dt in (I, B) and static(shape):
+                fams += ["promo", "promo"]
         if "shape" in allow and len(shape) >= 1:
             fams += ["transpose", "reshape", "expand", "slice", "concat", "flip", "bcast", "bcast_in_dim", "pad", "tile", "squeeze", "stack", "swapaxes"]
         if "red" in allow and len(shape) >= 1:
@@ -501,6 +524,11 @@ class PB:
             if dt == I:
                 return self.emit("un_i", [src], I, shape, {"f": d(st.sampled_from(UN_I_NAMES))})
             return self.emit("not", [src], B, shape)
+        if fam == "promo":
+            f = d(st.sampled_from([n for n in (PROMO_NAMES if dt == I else ["add_f", "mul_f", "where_f", "cast_div", "mean", "mean_all"]) if n not in PROMO_KNOWN_BROKEN]))
+            red = PROMO_REDUCING.get(f)
+            oshape = shape if red is None else (() if red == "all" or not shape else tuple(shape[:-1]))
+            return self.emit("promo", [src], F, oshape, {"f": f})
         if fam == "bin":
             other = self.operand(dt, shape)
             oshape = bshape(self.vals[other][1], shape)
